@@ -1231,7 +1231,9 @@ class LineCoverageInstrumentation(transformer.LineCoverageInstrumentationAdapter
             ):
                 continue
 
-            if self.should_instrument_line(instr, lineno):
+            # Instructions without a line number (e.g., exception-table cleanup code) do not
+            # belong to any source line: they must not become a coverable line "None".
+            if isinstance(instr.lineno, int) and self.should_instrument_line(instr, lineno):
                 lineno = instr.lineno
 
                 self.visit_line(ast_info, cfg, code_object_id, node, instr, instr_index)
@@ -1309,8 +1311,10 @@ class CheckedCoverageInstrumentation(transformer.CheckedCoverageInstrumentationA
                 continue
 
             # Register all lines available
-            if cfg.bytecode_cfg.filename != AST_FILENAME and self.should_instrument_line(
-                instr, lineno
+            if (
+                cfg.bytecode_cfg.filename != AST_FILENAME
+                and isinstance(instr.lineno, int)
+                and self.should_instrument_line(instr, lineno)
             ):
                 lineno = instr.lineno
                 self.visit_line(
